@@ -2,6 +2,8 @@ import Driver.Expr
 import Model.IdManager
 import Model.Sig
 import Model.IdState
+import Model.ExprMC
+import Model.ExprEdit
 open Lean Drv Expr Engine DrvExpr
 
 def tableJson (t : IdM.Table String) : Json :=
@@ -94,6 +96,89 @@ def numTable (j : Json) : Except String (List Char → Option Float) := do
   let tbl ← parsePairs j
   pure fun s => tbl.lookup (String.ofList s)
 
+/-! ### round 3: formulas with draws (`Model/ExprMC.lean`) -/
+
+def parseXNode (j : Json) : Except String (ExprMC.XNode Float) := do
+  let k ← getStr j "k"
+  let x : Option ExprMC.XKind := match k with
+    | "draws" => some .draws
+    | "monteCarlo" => some .monteCarlo
+    | "panelTraj" => some .panelTraj
+    | _ => none
+  match x with
+  | none => pure { x := .base, node := ← parseNode j }
+  | some x =>
+    let children ← match optField j "c" with
+      | some v => natList v
+      | none => pure []
+    let name ← match optField j "name" with
+      | some v => asStr v
+      | none => pure ""
+    pure { x := x, node := { kind := .num, children := children, name := name, value := 0.0 } }
+
+def parseXTable (j : Json) : Except String (IdM.Table String) := do
+  pure { free := ← strList (← j.getObjVal? "free"), fixed := ← strList (← j.getObjVal? "fixed"),
+         rvs := [], draws := ← strList (← j.getObjVal? "draws"), cols := ← strList (← j.getObjVal? "cols") }
+
+/-- the inputs of the engine for one individual: parameter vectors, its rows, its draws -/
+def parseXE (j : Json) : Except String (ExprMC.XEngEnv Float) := do
+  pure { free := ← floatList (← j.getObjVal? "free"), fixed := ← floatList (← j.getObjVal? "fixed"),
+         rows := ← floatMat (← j.getObjVal? "rows"), row := 0,
+         draws := ← floatMat (← j.getObjVal? "draws"), draw := none }
+
+def handleX (op : String) (j : Json) : Except String Json := do
+  match op with
+  | "evalx" =>
+    let d ← (← getArr j "dag").toList.mapM parseXNode
+    let t ← parseXTable (← j.getObjVal? "table")
+    let xe ← parseXE (← j.getObjVal? "xe")
+    let k ← getNat j "root"
+    if !ExprMC.wfXB d then throw "ill-formed dag" else
+    pure (Json.mkObj [("run", resJson (ExprMC.runX t d k xe)),
+                      ("byname", resJson (ExprMC.evalXRoot semEngine d (ExprMC.xenvOf t xe) k)),
+                      ("math", resJson (ExprMC.evalXRoot semMath d (ExprMC.xenvOf t xe) k))])
+  | "runtextx" =>
+    -- the REAL signature text of a formula with draws read by `parseLineX`, loaded, run per individual
+    let ls ← strList (← j.getObjVal? "text")
+    let numOf ← numTable (← j.getObjVal? "nums")
+    let xes ← (← getArr j "xes").toList.mapM parseXE
+    let root ← getNat j "root"
+    match ExprMC.loadTextX numOf [] (ls.map String.toList) with
+    | none => pure (Json.mkObj [("err", jStr "unreadable")])
+    | some st =>
+      match st.find root with
+      | none => pure (Json.mkObj [("err", jStr "dangling")])
+      | some f => pure (Json.mkObj [("vals", jArr (xes.map fun xe => resJson (f xe)))])
+  | "parsetextx" =>
+    let ls ← strList (← j.getObjVal? "text")
+    let numOf ← numTable (← j.getObjVal? "nums")
+    pure (jArr (ls.map fun f =>
+      match ExprMC.parseLineX numOf f.toList with
+      | some l =>
+        let tag := match l.x with
+          | .base => "base" | .draws => "draws" | .monteCarlo => "monteCarlo" | .panelTraj => "panelTraj"
+        Json.mkObj [("x", jStr tag), ("line", lineJson l.line)]
+      | none => Json.null))
+  | "editeval" =>
+    -- an edit of the Beta leaves (Model/ExprEdit.lean) applied to the abstract DAG, then the engine path
+    let d ← parseDag (← j.getObjVal? "dag")
+    let vals ← parsePairs (← j.getObjVal? "values")
+    let f : String → Option Float := fun n => vals.lookup n
+    let pre ← getStr j "prefix"
+    let suf ← getStr j "suffix"
+    let d' ← match (← getStr j "edit") with
+      | "change_init" => pure (ExprEdit.changeInit f d)
+      | "fix" => pure (ExprEdit.fixBetas f pre suf d)
+      | _ => throw "bad-op"
+    let t ← parseTable (← j.getObjVal? "table")
+    let ee ← parseEE (← j.getObjVal? "ee")
+    let k ← getNat j "root"
+    if !wfB d' then throw "ill-formed dag" else
+    pure (Json.mkObj [("decls", jArr ((ExprEdit.decls d').map fun dc =>
+                        Json.mkObj [("name", jStr dc.name), ("fixed", jBool dc.fixed), ("init", fbits dc.init)])),
+                      ("run", resJson (run t d' k ee))])
+  | _ => throw "bad-op"
+
 def handle (j : Json) : Except String Json := do
   let op ← getStr j "op"
   match op with
@@ -162,10 +247,14 @@ def handle (j : Json) : Except String Json := do
   | "prepare" =>
     let decls ← (← getArr j "decls").toList.mapM parseDecl
     let cols ← strList (← j.getObjVal? "cols")
-    match IdM.prepare decls [] [] cols with
+    let draws ← match optField j "draws" with
+      | some v => strList v
+      | none => pure []
+    match IdM.prepare decls [] draws cols with
     | .ok t => pure (Json.mkObj [("free", jStrs t.free), ("fixed", jStrs t.fixed), ("cols", jStrs t.cols),
-                                 ("all", jStrs t.all)])
+                                 ("draws", jStrs t.draws), ("all", jStrs t.all)])
     | .error dups => pure (Json.mkObj [("duplicates", jStrs dups)])
+  | "evalx" | "runtextx" | "parsetextx" | "editeval" => handleX op j
   | _ => throw "bad-op"
 
 def main : IO Unit := Drv.run handle
